@@ -2,9 +2,9 @@ import VermouthModel.Proto
 import VermouthModel.Iso
 /-
 C06 — what the driver answers for the four kinds of query of harness/c06.py.
-The model of the property is the shared reference library `Iso` (DESIGN 4.1, 5.6);
-ISMAGS itself is not transcribed.  This file only fixes the canonical rendering
-of the reference answers:
+The REFERENCE of the property is the shared library `Iso` (DESIGN 4.1, 5.6); the TRANSCRIPTION of
+the ISMAGS search core is `C06_Ismags.lean` (its answers are rendered in `Drivers/C06.lean`).
+This file only fixes the canonical rendering of the reference answers:
 
 * `iso g sg`            all induced subgraph isomorphisms (symmetry off): sorted list of maps,
                         a map = the target nodes in pattern-node order;
